@@ -202,8 +202,9 @@ def to_pdb(chains, waters=(), ter=True, end=True):
     return "\n".join(lines) + "\n"
 
 
-def water(rng, chain="A", resseq=500, center=(0, 0, 0), spread=15.0, name="HOH"):
-    l = f"HETATM    1  O   {name} {chain}{resseq:4d}    {center[0] + rng.uniform(-spread, spread):8.3f}{center[1] + rng.uniform(-spread, spread):8.3f}{center[2] + rng.uniform(-spread, spread):8.3f}  1.00 20.00           O"
+def water(rng, chain="A", resseq=500, center=(0, 0, 0), spread=15.0, name="HOH", record="HETATM"):
+    """one water oxygen; `record` = "HETATM" (deposited files) or "ATOM  " (MD tool chains write waters so)"""
+    l = f"{record}    1  O   {name} {chain}{resseq:4d}    {center[0] + rng.uniform(-spread, spread):8.3f}{center[1] + rng.uniform(-spread, spread):8.3f}{center[2] + rng.uniform(-spread, spread):8.3f}  1.00 20.00           O"
     return [Atom(l)]
 
 
